@@ -22,6 +22,11 @@ func typeName(t types.Type) string {
 			return short(x.Obj().Pkg().Path()) + "." + x.Obj().Name()
 		}
 		return x.Obj().Name()
+	case *types.Alias:
+		if x.Obj().Pkg() != nil {
+			return short(x.Obj().Pkg().Path()) + "." + x.Obj().Name()
+		}
+		return typeName(types.Unalias(x))
 	case *types.Slice:
 		return "[]" + typeName(x.Elem())
 	case *types.Array:
@@ -541,7 +546,7 @@ func ReturnFacts(fn *ssa.Function, idx int, want func(v ssa.Value) (match bool, 
 		if !ok || idx >= len(ret.Results) {
 			continue
 		}
-		collectReturn(ret.Results[idx], b, nil, want, &all, 4)
+		collectReturn(RetResults(ret)[idx], b, nil, want, &all, 4)
 	}
 	return all
 }
